@@ -242,3 +242,61 @@ def run(ctx):
             chk.ok("R04.4", "re-index by name equality in the new list", "", loc(b["span"]))
         else:
             chk.violation("R04.4", "reindex", "reset_vars does not look a variable up by equality of its name in the new list (a different variable's index may be assigned)", loc(b["span"]))
+
+    name_sources(chk, fb)
+
+
+def name_sources(chk, fb, RID="R04.5"):
+    """R04.5: the name list DeepEx::new computes takes the names of a nested expression from that expression's own
+    list.  A nested expression lists names that no longer occur as a node below it (a folded `0*x`, the derivative `1`
+    of `x+y`); its variable nodes are indexed against its full list and reset_vars re-indexes by name, so a list
+    rebuilt from the nodes alone drops names and shifts every value binding."""
+    import re
+    from analysis.interp import Interp, Policy, Sym, show
+    chk.rule(RID, "DeepEx::new: the names of a nested expression come from its own var_names list, the names of variable nodes from the nodes")
+    nb = [b for p, b in fb.bodies.items() if b["kind"] == "AssocFn" and b.get("name") == "new" and (b.get("impl_self_ty") or "").startswith("expression::deep::DeepEx<")]
+    if len(nb) != 1:
+        chk.violation(RID, "anchor", "DeepEx::new not found")
+        return
+    b = nb[0]
+
+    class P(Policy):
+        loop_mode = "widen"
+        max_depth = 4
+
+        def inline(self, fn, args, interp, path):
+            cb = interp.callee_body(fn)
+            # private helpers of the constructor; compile (folding) does not touch the list
+            return cb is not None and cb["path"].startswith("expression::deep") and cb.get("name") != "compile" and cb["path"] != b["path"] and len(cb["blocks"]) <= 80
+
+        def inline_closure(self, closure_path, args, interp, path):
+            return False
+    allp = Interp(fb, P()).run(b, [Sym(b["locals"][i].get("name") or "a%d" % i) for i in range(1, b["arg_count"] + 1)])
+    GROW = ("push", "extend", "extend_from_slice", "insert", "insert_many", "append")
+    from_var = from_nested = other = 0
+    where = None
+    for p in allp:
+        for k, x in p.trace:
+            if k != "e" or x[0] != "call":
+                continue
+            m = x[1].rsplit("::", 1)[-1]
+            if m not in GROW or "String" not in str(x[5].get("args")) + str(x[5].get("impl_self_ty")):
+                continue
+            el = " ".join(show(a) for a in x[2][1:])
+            where = where or x[3]
+            if re.search(r"var_names\(.*as:Expr\(", el):
+                from_nested += 1
+            elif re.search(r"as:Var\(", el):
+                from_var += 1
+            elif not re.search(r"loop:", el):
+                other += 1
+    if any(p.status == "unrecognised" for p in allp):
+        chk.unrecognised(RID, "shape", "DeepEx::new: %s" % next(p.note for p in allp if p.status == "unrecognised"), loc(b["span"]))
+    elif from_var == 0 and from_nested == 0:
+        chk.unrecognised(RID, "shape", "no growth of a name list found in DeepEx::new (and its helpers)", loc(b["span"]))
+    elif from_nested == 0:
+        chk.violation(RID, "nested-names", "DeepEx::new never takes a name from the var_names list of a nested expression: names that a nested expression lists but that do not occur as a variable node any more (folded constants, derivatives) are dropped, and the remaining variable nodes are bound to the wrong values", loc(b["span"]))
+    elif from_var == 0:
+        chk.violation(RID, "node-names", "DeepEx::new never takes the name of a variable node", loc(b["span"]))
+    else:
+        chk.ok(RID, "name sources", "growth events: %d from variable nodes, %d from nested lists" % (from_var, from_nested), loc(b["span"]))
